@@ -11,6 +11,8 @@ claimed = {
  "C06": ("fault_enumeration", "4 C06", "crash (SIGKILL) at file-system mutation boundaries of simulated histories + torn data writes; every snapshot recovered and read back; independent durable-log scan as oracle"),
  "C07": ("fault_enumeration", "4 C07", "crash at every file-system mutation boundary inside simulated GC passes + torn relocation writes; recovery vs pre-pass model state"),
  "C08": ("exploration", "4 C08", "pairs of simulated worlds with equal content and different histories: complete listing walks compared; plus recomputation of listings from the reference model inside every world"),
+ "C11": ("exploration", "4 C11", "grammar-generated and mutated byte streams delivered by the network simulator (fragmentation, delays, truncation with close or half-open silence) on 1..3 connections; independent reference parser predicts the reply sequence; bounded liveness by sentinel commands"),
+ "C12": ("exploration", "4 C12", "C11 streams on 1..8 connections with connection drops at arbitrary bytes and slow-client stalls; counters never negative; tokens and the four buffer counters exactly zero at quiescence"),
  "C13": ("exploration", "4 C13", "C01/C02/C03 histories over key groups forced onto one key hash (hash override seam), gets compared with an independent-keys reference map"),
  "C09": ("fault_enumeration", "4 C09", "independent decode of data files vs the model's append log; corruption faults (bit flips, byte overwrites, zeroed blocks, truncations, forged size fields) enumerated over record positions; positional and rescan reads after restart vs independent resynchronising scanner"),
  "C10": ("exploration", "4 C10", "seeded simulation: threshold values through buffer/disk/restart/GC vs reference map and reference value hash"),
@@ -27,6 +29,8 @@ texts = {
  "C06": "Per generated history the crash points (every disk mutation boundary in thorough, a drawn sixth in quick) and torn variants of data writes are recovered and read back: served values must be really issued writes not older than the newest intact durable record; refusal to start only with a partial record at a file end. Exhaustive per history in the thorough tier only, never for the property.",
  "C07": "Same enumeration restricted to the boundaries inside GC passes; after recovery every key must read its pre-pass value. The in-place rewrite of the first file of a range is not crash safe (known findings KF-C07-stale-tail-*, DESIGN section 11); violations outside that state are reported.",
  "C08": "For pairs of stores with equal live content reached through different histories (permutation, redundant overwrites, delete-then-reset at a forced version, restarts with the tree loaded or rebuilt, GC) the complete listing walks agree node for node and as live-item sets; listings also equal an independent recomputation (reference key hash, value hash, aggregation) at all prefix lengths 0..16, including single-leaf populations above the 100-item and 256-key thresholds; sampling.",
+ "C11": "For generated streams every complete well-formed command gets exactly one syntactically valid reply in order (exact status and bytes for data commands), malformed ones an error reply or orderly close, nothing wedges (sentinel on the same connection when it is in sync, and on a fresh connection), requests round-trip through the repository's own codec; timing faults (protocol timeouts) are excluded; known finding KF-C11-token-starvation.",
+ "C12": "After every generated multi-connection stream set (valid, malformed, cut, slow client) all request tokens are free and GetData/SetData/FlushData/AllocRL are exactly (0,0) once connections are closed and data is flushed; no counter is ever negative; sampling.",
  "C13": "Only what a get returns is compared for colliding keys (the statement's observable obligations). The code violates the property in several ways (known findings KF-C13-collide-*); groups hit by a known finding are taken out of the comparison and the world continues, any other violation is reported.",
  "C09": "The bytes on disk decode (independent codec, CRC-32, 256-byte blocks) to exactly the model's append log; for enumerated corruption faults a get never returns anything but bytes written for that key, and after a rescan every key reads its newest intact record at the scanner's offset. Complete per file only in the thorough tier; CRC collisions ignored.",
  "C10": "Values around every compression decision threshold read back byte-exact with client flags and reference value hash from buffer, disk, after restart and GC; only the first sentence of the property (second sentence: not decided, see DESIGN section 5).",
